@@ -120,10 +120,52 @@ fn batch_case(lens: &[usize]) -> Result<bool, String> {
     }
 }
 
+/// `entities!((..); n)` with a count expression that has a side effect: the macro is a safe way to
+/// build a batch, so all columns must get the same length whatever the expression does.
+fn macro_count_case(columns: usize, start: usize) -> Result<(), String> {
+    let mut world = World::<R4>::new();
+    let calls = std::cell::Cell::new(0usize);
+    let next = || {
+        calls.set(calls.get() + 1);
+        start + calls.get() - 1
+    };
+    let r = catch_unwind(AssertUnwindSafe(|| match columns {
+        1 => world.extend(entities!((K::<0>(1)); next())),
+        2 => world.extend(entities!((K::<0>(1), K::<1>(2)); next())),
+        3 => world.extend(entities!((K::<2>(1), K::<0>(2), K::<1>(3)); next())),
+        _ => world.extend(entities!((K::<3>(1), K::<1>(2), K::<0>(3), K::<2>(4)); next())),
+    }));
+    let ids = match r {
+        Ok(ids) => ids,
+        Err(_) => return Ok(()), // refusing the batch by panicking is within the property
+    };
+    let d = world.verif_dump();
+    let rows = world.query(Query::<Views!(entity::Identifier)>::new()).iter.count();
+    if calls.get() != 1 || ids.len() != start || rows != start || d.archetypes.iter().any(|a| a.entity_identifiers.len() != a.length) {
+        return Err(format!(
+            "entities!((..{columns} components..); n) with a side-effecting count expression (values {start}, {}, ...) evaluated the expression {} times: the safe macro built a batch with columns of different lengths; extend returned {} identifiers, {rows} rows are stored",
+            start + 1,
+            calls.get(),
+            ids.len()
+        ));
+    }
+    Ok(())
+}
+
 fn main() {
     let args: Vec<String> = std::env::args().collect();
     let arg = |n: &str| args.iter().position(|a| a == n).and_then(|i| args.get(i + 1).cloned());
     std::panic::set_hook(Box::new(|_| {}));
+    if args.get(1).map(|s| s.as_str()) == Some("replay-macro") {
+        let v: Vec<usize> = serde_json::from_str(&args[2]).unwrap();
+        match macro_count_case(v[0], v[1]) {
+            Err(e) => {
+                println!("REPRODUCED property=C18 {e}");
+                std::process::exit(1);
+            }
+            Ok(_) => std::process::exit(0),
+        }
+    }
     if args.get(1).map(|s| s.as_str()) == Some("replay-batch") {
         let lens: Vec<usize> = serde_json::from_str(&args[2]).unwrap();
         match batch_case(&lens) {
@@ -194,6 +236,21 @@ fn main() {
         }
     }
     samples.push(serde_json::json!({"batch_column_lengths": [2, 3, 2], "expect": "Batch::new panics"}));
+    // the safe macro with a side-effecting count expression
+    let mut macro_cases = 0;
+    for columns in 1..=4usize {
+        for start in 0..4usize {
+            evaluations += 1;
+            macro_cases += 1;
+            if columns >= 2 {
+                nontrivial += 1;
+            }
+            if let Err(e) = macro_count_case(columns, start) {
+                violations.push(serde_json::json!({"kind": "macro", "columns": columns, "start": start, "failure": e}));
+            }
+        }
+    }
+    samples.push(serde_json::json!({"macro": "entities!((K0, K1); { calls += 1; 1 + calls })", "expect": "one evaluation, equal column lengths"}));
     // generated larger lengths
     let mut runner = TestRunner::new_with_rng(
         PtConfig { cases, failure_persistence: None, rng_seed: RngSeed::Fixed(seed), ..PtConfig::default() },
@@ -221,7 +278,7 @@ fn main() {
     }
     let report = serde_json::json!({
         "evaluations": evaluations, "distinct_nontrivial": nontrivial, "registry_types": regs.len(), "constructors_per_registry": regs[0].outcomes.len(),
-        "batch_length_tuples_exhaustive": batch_exhaustive, "batch_length_tuples_generated": generated.get(), "samples": samples, "violations": violations,
+        "batch_length_tuples_exhaustive": batch_exhaustive, "batch_length_tuples_generated": generated.get(), "macro_count_cases": macro_cases, "samples": samples, "violations": violations,
     });
     std::fs::write(out, serde_json::to_string_pretty(&report).unwrap()).unwrap();
 }
